@@ -1,6 +1,6 @@
 \* C13 thorough: as quick, with <= 3 extra properties (all ordered triples over 10 core properties),
-\* composites over all 21 atoms and depth-2 composites (composite of composite over 4 atoms);
-\* the harness instantiates every abstract event 6 times from the value pool (64 KiB strings).
+\* composites over all 23 atoms and depth-2 composites (composite of composite over 4 atoms);
+\* the harness instantiates every abstract event 3 times from the value pool (64 KiB strings).
 SPECIFICATION Spec
 CONSTANTS
     Events <- MC_Events
